@@ -15,6 +15,7 @@ pub mod c09;
 pub mod c10;
 pub mod c11;
 pub mod c12;
+pub mod c13;
 pub mod iofault;
 
 pub fn get(id: &str) -> Option<Box<dyn Monitor>> {
@@ -31,6 +32,7 @@ pub fn get(id: &str) -> Option<Box<dyn Monitor>> {
         "C10" => Some(Box::new(c10::C10)),
         "C11" => Some(Box::new(c11::C11)),
         "C12" => Some(Box::new(c12::C12)),
+        "C13" => Some(Box::new(c13::C13)),
         _ => None,
     }
 }
